@@ -196,6 +196,10 @@ EXTRA_PROGRAMS: Dict[str, Dict[str, Any]] = {
                                             "message_defs:\n  NS_MSG:\n    id: 4121\n    fields:\n      t: NS_T\n      n: int32[NS_N]\n",
                                "lib/types.yaml": "imports: null\nconstants:\n  NS_N: 3\nstring_constants: null\naliases: null\nhost_ids: null\nmodule_ids: null\n"
                                                  "struct_defs:\n  NS_T:\n    fields:\n      a: int32\nmessage_defs: null\n"},
+    # a long chain of aliases (each names the one before), spanning an imported and the importing file
+    "long-alias-chain": {"root.yaml": {"imports": ["base_types.yaml"], "aliases": {f"LA{i}": f"LA{i - 1}" for i in range(8, 15)},
+                                       "message_defs": {"LAM": {"id": 4122, "fields": {"a": "LA14", "b": "LA7[2]", "c": "LA1", "d": "LA11[3]"}}}},
+                         "base_types.yaml": {"aliases": {"LA0": "uint16", **{f"LA{i}": f"LA{i - 1}" for i in range(1, 8)}}}},
     "nested-depth": {"root.yaml": {"struct_defs": {"L1": {"fields": {"a": "int32"}}, "L2": {"fields": {"l": "L1[2]", "b": "int32"}}, "L3": {"fields": {"l": "L2[2]", "c": "int32"}}},
                                    "message_defs": {"MS": {"id": 4104, "fields": {"l": "L3[2]", "m": "L1"}}}}},
     "imports-chain": {"root.yaml": {"imports": ["a.yaml"], "message_defs": {"MS": {"id": 4105, "fields": {"s": "SB", "t": "ALB"}}}},
